@@ -1401,3 +1401,57 @@ def c09_order_obligations(repo):
             out.append(('list indices are keyed by (\'\', -index), so higher indices sort first under reverse=True: %s' % _ast.unparse(arg),
                         arg.elts[0].value == '' and _ast.unparse(arg.elts[1]) == '-%s' % var, 'content'))
     return out
+
+
+# ------------------------------------------------------------------------------------------ C01 (file interface of the diff command)
+
+HANDLE_DIFF = dict(COMMON, **{
+    'nbdime.utils.read_notebook': {'effect': 'read', 'raises': True},
+    'nbdime.diffing.notebooks.diff_notebooks': {'effect': 'diff', 'raises': True, 'effect_on_raise': False},
+    'nbdime.diffing.diff_notebooks': {'effect': 'diff', 'raises': True, 'effect_on_raise': False},
+    'builtins.open': {'effect': 'open_out', 'raises': True, 'effect_on_raise': False},
+    'io.open': {'effect': 'open_out', 'raises': True, 'effect_on_raise': False},
+    'json.dump': {'effect': 'dump', 'raises': True, 'returns': 'none'},
+    'builtins.print': {'effect': 'print', 'raises': False, 'returns': 'none'},
+    'nbdime.args.prettyprint_config_from_args': {'effect': None, 'raises': True},
+    'nbdime.prettyprint.pretty_print_notebook_diff': {'effect': 'print_diff', 'raises': True, 'returns': 'none'},
+    'os.path.exists': {'effect': None, 'raises': False, 'returns': 'bool'},
+})
+
+
+def hd_diff_delivered(path):
+    "every returning path that computed the diff delivers it: written once with json.dump to a file opened on `output` when an output file is named, pretty-printed once otherwise"
+    if path.outcome != 'return':
+        return None
+    ds = _eff(path, 'diff')
+    if not ds:
+        return None                      # the early exit for a missing file
+    d = ds[0]
+    output = path.env.get('output')
+    if output is None:
+        raise _oos('no parameter `output`')
+    dumps, prints, opens = _eff(path, 'dump'), _eff(path, 'print_diff'), _eff(path, 'open_out')
+    named, _, _ = path.entails(truth(output))
+    unnamed, _, _ = path.entails(z3.Not(truth(output)))
+    if named:
+        if len(dumps) != 1:
+            return False, '%d json.dump calls on a returning path with an output file' % len(dumps)
+        if not as_py(dumps[0].args[0]).eq(as_py(d.result)):
+            return False, 'what is dumped is not the diff computed on this path'
+        if not opens or not as_py(opens[0].args[0]).eq(as_py(output)):
+            return False, 'the file opened is not `output`'
+        return True, 'diff dumped to the named output'
+    if unnamed:
+        if len(prints) != 1 or dumps:
+            return False, 'without an output file the diff is not printed exactly once'
+        return True, 'diff pretty-printed'
+    if not dumps and not prints:
+        # the path returns without ever asking whether an output file was named, and delivers the computed diff nowhere:
+        # with an output file named, no file is written
+        return False, 'the diff is computed but neither written nor printed on a returning path'
+    raise _oos('a returning path that delivers the diff without deciding whether an output file was named')
+
+
+C01_FILE_JOBS = [
+    ('nbdime.nbdiffapp._handle_diff', HANDLE_DIFF, [('diff-delivered', hd_diff_delivered), ('no-swallowed-exception', no_swallowed_exception)], False),
+]
